@@ -67,7 +67,7 @@ MIN = {
     'running_at_terminate': 8, 'rejected_at_put': 20, 'kind:ssh255': 12,
     'kind:missing': 12,
 }
-NCASES = {'quick': 320, 'thorough': 3200}
+NCASES = {'quick': 320, 'thorough': 2400}
 CASE_TIMEOUT = 120
 
 JOBS_SUBMIT = 'jobs-submit'
@@ -179,6 +179,7 @@ class Rec:
         self.over_capacity = []
         self.submit_after_stop = []
         self.procs = []
+        self.timed_out = False
 
 
 def drive(ctx, batch):
@@ -352,7 +353,7 @@ def judge(ctx, batch, rec, raised, drained):
     nontrivial = bool(
         len(cmds) > batch['size'] or rec.stop_seen_queued
         or rec.queued_at_terminate or rec.running_at_terminate
-        or getattr(rec, 'timed_out', False))
+        or rec.timed_out)
     ctx.evaluated((batch['size'], batch['timeout'], tuple(cmds),
                    tuple(batch['ops'])), nontrivial=nontrivial)
     ctx.count('batches')
